@@ -265,6 +265,8 @@ def byte_gates():
         "qcow2.cluster_bits": (lambda: base_qcow2(), 20, 4, ">", lambda v: 9 <= v <= 21, open_qcow2),
         "qcow2.crypt_method": (lambda: base_qcow2(), 32, 4, ">", lambda v: v == 0, open_qcow2),
         "qcow2.compression_type=zstd": (lambda: patch(base_qcow2(), 72, struct.pack(">Q", 1 << 3)), 104, 1, ">", lambda v: v != 1, open_qcow2),
+        # the same byte when the header's compression-type feature bit is clear (the field has to be zero then): zstd is still not zlib
+        "qcow2.compression_type=zstd.bit-clear": (lambda: base_qcow2(), 104, 1, ">", lambda v: v != 1, open_qcow2),
         "qcow2.compression_type>=2": (lambda: patch(base_qcow2(), 72, struct.pack(">Q", 1 << 3)), 104, 1, ">", lambda v: v in (0, 1), open_qcow2_read_compressed),
         "vhdx.file_identifier": (base_vhdx, 0, 8, "<", lambda v: v == int.from_bytes(b"vhdxfile", "little"), open_vhdx),
         "vhdx.current_header": (base_vhdx, 2 * 65536, 4, "<", lambda v: v == int.from_bytes(b"head", "little"), open_vhdx),
@@ -308,12 +310,12 @@ MAGIC_GATES = ["qcow2.magic", "vhdx.file_identifier", "vhdx.current_header", "vh
                "vmdk.sesparse.magic", "vmdk.sesparse.magic.vmdk", "vmdk.descriptor-extent.magic", "envelope.magic.noverify", "hyperv.header.signature", "hyperv.replay_log.signature",
                "hyperv.object_table.signature", "hyperv.key_table.signature", "envelope.magic", "hyperv.nested.object_table.signature",
                "hyperv.nested.key_table.signature", "vmdk.footer.magic", "hyperv.stale.key_table.signature"]
-VALUE_GATES = ["qcow2.version", "qcow2.cluster_bits", "qcow2.crypt_method", "qcow2.v2.crypt_method", "qcow2.compression_type=zstd", "qcow2.compression_type>=2",
+VALUE_GATES = ["qcow2.version", "qcow2.cluster_bits", "qcow2.crypt_method", "qcow2.v2.crypt_method", "qcow2.compression_type=zstd", "qcow2.compression_type=zstd.bit-clear", "qcow2.compression_type>=2",
                "hyperv.header.version", "envelope.version", "envelope.aead_footer.version", "envelope.version.noverify",
                "envelope.aead_footer.version.noverify"]
 SEMANTIC_GATES = ["qcow2.data_file_bit", "qcow2.extl2_small_clusters", "qcow2.backing_without_object", "qcow2.data_file_without_object", "vhdx.missing_region",
                   "vhdx.locator_type", "vhdx.parent_missing", "hdd.image_type", "hdd.no_descriptor", "envelope.cipher_name",
-                  "envelope.missing_attribute", "keystore.mode", "keysafe.identifier", "keysafe.locator_kind", "keysafe.names"]
+                  "envelope.missing_attribute", "keystore.mode", "keysafe.identifier", "keysafe.locator_kind", "keysafe.names", "blanked_structure"]
 
 
 def exhaustive(tier):
@@ -546,6 +548,20 @@ def semantic(spec, out):
         if bad.startswith('mode = "NONE"') or '\nmode = "NONE"' in bad:
             bad = good.replace('mode = "NONE"\n', "")
         err = lib(KeyStore.from_text, bad)[1]
+    elif name == "blanked_structure":
+        # a validated structure whose whole region is blank (all 0x00 or all 0xFF) carries no signature either
+        hv, _replay = base_hyperv()
+        cands = [("hyperv.key_table", hv, 0x3000, 0x1000, open_hyperv), ("hyperv.object_table", hv, 0x2000, 0x1000, open_hyperv),
+                 ("hyperv.nested.key_table", base_hyperv_chained(), 0x4000, 0x1000, open_hyperv),
+                 ("vhdx.region_table_1", base_vhdx(), 3 * 65536, 65536, open_vhdx), ("vhdx.region_table_2", base_vhdx(), 4 * 65536, 65536, open_vhdx),
+                 ("vhdx.metadata_table", base_vhdx(), 2 << 20, 65536, open_vhdx), ("vdi.header", base_vdi(), 0, 512, open_vdi),
+                 ("hds.header", base_hds(1 + n % 2), 0, 64, open_hds), ("envelope.header", base_envelope(), 0, 4096, open_envelope),
+                 ("qcow2.header", base_qcow2(), 0, 104, open_qcow2)]
+        what, base, off, ln, opener = cands[n % len(cands)]
+        fill = b"\x00" if (n // len(cands)) % 2 == 0 else b"\xff"
+        out.cls("blanked:" + what)
+        ctl = lib(opener, base)[1]
+        err = lib(opener, patch(base, off, fill * ln))[1]
     elif name.startswith("keysafe."):
         return keysafe(spec, out)
     else:
